@@ -35,12 +35,6 @@ Fixpoint token_eqb (a b : token) {struct a} : bool :=
       | p :: r, q :: s => token_eqb p q && toks r s
       | _, _ => false
       end in
-  let cheq := fun (c d : choice) =>
-      match c, d with
-      | Choice t1 g1 a1 k1 s1 n1 tg1 b1, Choice t2 g2 a2 k2 s2 n2 tg2 b2 =>
-          toks t1 t2 && String.eqb g1 g2 && String.eqb a1 a2 && opt_eqb String.eqb k1 k2 &&
-          Bool.eqb s1 s2 && Nat.eqb n1 n2 && strs_eqb tg1 tg2 && toks b1 b2
-      end in
   let chs := fix chs (x y : list choice) {struct x} : bool :=
       match x, y with
       | [], [] => true
@@ -225,13 +219,18 @@ Definition table_is_call (ct : call_table) (args : string) : bool :=
 
 Definition pcase := (list string * stmt_table * call_table * robs story)%type.
 
-Definition pcase_model (dflt : bool) (c : pcase) : pres story :=
+(* parametric in the extractors, so that the harness can link part B's (see LINK_BLOCKS in
+   harness/c11.py) without this file depending on Compiler/ParseBlocks.v *)
+Definition pcase_model_x (xs : extractors) (dflt : bool) (c : pcase) : pres story :=
   let '(lines, st, ct, _) := c in
-  parse (table_pyparse st ct dflt) (table_is_call ct) check_extractors lines.
+  parse (table_pyparse st ct dflt) (table_is_call ct) xs lines.
 
-Definition pcase_bad (c : pcase) : bool :=
+Definition pcase_bad_x (xs : extractors) (c : pcase) : bool :=
   let '(_, _, _, r) := c in
-  negb (agrees story_eqb (pcase_model false c) r && agrees story_eqb (pcase_model true c) r).
+  negb (agrees story_eqb (pcase_model_x xs false c) r && agrees story_eqb (pcase_model_x xs true c) r).
 
-Definition pcase_show (c : pcase) : pres story * bool :=
-  (pcase_model false c, let '(_, _, _, r) := c in agrees story_eqb (pcase_model true c) r).
+Definition pcase_show_x (xs : extractors) (c : pcase) : pres story * bool :=
+  (pcase_model_x xs false c, let '(_, _, _, r) := c in agrees story_eqb (pcase_model_x xs true c) r).
+
+Definition pcase_bad := pcase_bad_x check_extractors.
+Definition pcase_show := pcase_show_x check_extractors.
